@@ -41,6 +41,7 @@ def run(ctx):
     leaves = q.bool_leaves(ack.rhs, nak.rhs, *[l.e for l in flip[0].guard])
     known = {EPM, OUT, PING, RFR, TRFR, MATCH, NEXT, VALID, FULL, OVF, SPACE}
     ctx.need(set(leaves) <= known, 'conditions of the ack/nak expressions are the known ones (unexpected: %s)' % sorted(set(leaves) - known))
+    leaves = sorted(known)          # enumerate every condition of the specification, present in the code or not
     bad_ack = bad_nak = both = bad_flip = None
     n = 0
     for asg in q.all_assignments(leaves):
@@ -83,6 +84,7 @@ def run(ctx):
     C, INV = 'boundary_detector.complete_out', 'boundary_detector.invalid_out'
     lv = q.bool_leaves(we.rhs, wc.rhs, wd.rhs)
     ctx.need(set(lv) <= known | {C, INV}, 'FIFO control conditions are the known ones: %s' % sorted(set(lv) - known - {C, INV}))
+    lv = sorted(known | {C, INV})
     bad = {}
     for asg in q.all_assignments(lv):
         g = lambda k: asg.get(k, False)
